@@ -1,5 +1,5 @@
 CONSTANTS
-  MaxR = 8
+  MaxR = 7
 SPECIFICATION Spec
 INVARIANT ConformanceReport
 CHECK_DEADLOCK FALSE
